@@ -19,6 +19,8 @@ numbers, padded text).
 use std::sync::OnceLock;
 
 use emit::{
+    platform::thread_local_ctxt::ThreadLocalCtxt,
+    Ctxt, Props,
     filter::ErasedFilter,
     level::{min_by_path_filter, min_filter, MinLevelFilter, MinLevelPathMap},
     well_known::KEY_LVL,
@@ -71,14 +73,94 @@ enum Lvl {
     Text(String, usize),
     /// the same documented text, handed over as an owned `String`
     OwnedText(String, usize),
+    /// a documented text (possibly padded with ASCII whitespace) or the typed level, carried to the
+    /// filter some other way; must be read exactly like the plain text / typed value
+    Carried(Carrier, String, usize),
     /// present but no documented form: outcome not judged
     Junk(String),
     Number(i64),
 }
 
+/// How a level reaches the filter.
+#[derive(Clone, Copy, Debug, PartialEq, Eq, Hash)]
+enum Carrier {
+    /// the text padded with ASCII whitespace on one or both sides, as a borrowed str
+    Padded,
+    /// the padded text as an owned String
+    PaddedOwned,
+    /// `Value::from_display` / `capture_display` of a foreign severity type printing the text
+    FromDisplay,
+    CaptureDisplay,
+    /// the typed `emit::Level` after `to_owned()` / `to_shared()`
+    TypedOwned,
+    TypedShared,
+    /// the text after `to_owned()` / `to_shared()`
+    TextOwned,
+    TextShared,
+    /// the text captured through serde / sval
+    FromSerde,
+    CaptureSerde,
+    FromSval,
+    CaptureSval,
+    /// the typed level / the text buffered in a ThreadLocalCtxt frame and read back as an ambient property
+    AmbientTyped,
+    AmbientText,
+}
+
+const CARRIERS: [Carrier; 14] = [
+    Carrier::Padded,
+    Carrier::PaddedOwned,
+    Carrier::FromDisplay,
+    Carrier::CaptureDisplay,
+    Carrier::TypedOwned,
+    Carrier::TypedShared,
+    Carrier::TextOwned,
+    Carrier::TextShared,
+    Carrier::FromSerde,
+    Carrier::CaptureSerde,
+    Carrier::FromSval,
+    Carrier::CaptureSval,
+    Carrier::AmbientTyped,
+    Carrier::AmbientText,
+];
+
+const PADS: [&str; 7] = [" ", "\t", "\n", "\r\n", "  ", " \t\r\n ", "\n\n"];
+
+fn pad(g: &mut Rng, s: &str) -> String {
+    let (l, r) = match g.below(3) {
+        0 => (*g.pick(&PADS), ""),
+        1 => ("", *g.pick(&PADS)),
+        _ => (*g.pick(&PADS), *g.pick(&PADS)),
+    };
+    format!("{}{}{}", l, s, r)
+}
+
+/// A foreign severity type: only its Display is known to emit.
+struct Sev(String);
+
+impl std::fmt::Display for Sev {
+    fn fmt(&self, f: &mut std::fmt::Formatter) -> std::fmt::Result {
+        f.write_str(&self.0)
+    }
+}
+
+fn tl_ctxt() -> ThreadLocalCtxt {
+    static TL: OnceLock<ThreadLocalCtxt> = OnceLock::new();
+    *TL.get_or_init(ThreadLocalCtxt::new)
+}
+
 impl Lvl {
     fn class(&self) -> &'static str {
         match self {
+            Lvl::Carried(c, _, _) => match c {
+                Carrier::Padded | Carrier::PaddedOwned => "padded-text",
+                Carrier::FromDisplay | Carrier::CaptureDisplay => "foreign-display",
+                Carrier::TypedOwned | Carrier::TypedShared => "typed-owned-value",
+                Carrier::TextOwned | Carrier::TextShared => "text-owned-value",
+                Carrier::FromSerde | Carrier::CaptureSerde => "serde",
+                Carrier::FromSval | Carrier::CaptureSval => "sval",
+                Carrier::AmbientTyped | Carrier::AmbientText => "ambient-buffered",
+            },
             Lvl::Missing => "missing",
             Lvl::Typed(_) => "typed",
             Lvl::Text(..) => "text",
@@ -92,7 +174,7 @@ impl Lvl {
     fn denotes(&self) -> Option<Option<usize>> {
         match self {
             Lvl::Missing => Some(None),
-            Lvl::Typed(l) | Lvl::Text(_, l) | Lvl::OwnedText(_, l) => Some(Some(*l)),
+            Lvl::Typed(l) | Lvl::Text(_, l) | Lvl::OwnedText(_, l) | Lvl::Carried(_, _, l) => Some(Some(*l)),
             Lvl::Junk(_) | Lvl::Number(_) => None,
         }
     }
@@ -173,7 +255,7 @@ fn gen_text_level(g: &mut Rng) -> (String, usize) {
 fn gen_junk(g: &mut Rng) -> String {
     match g.below(8) {
         0 => String::new(),
-        1 => " info ".to_string(),
+        1 => "info warn".to_string(),
         2 => "infox".to_string(),
         3 => "verbose".to_string(),
         4 => "é".to_string(),
@@ -186,7 +268,21 @@ fn gen_junk(g: &mut Rng) -> String {
     }
 }
 
+fn gen_carried(g: &mut Rng) -> Lvl {
+    let c = *g.pick(&CARRIERS);
+    let (s, l) = gen_text_level(g);
+    match c {
+        Carrier::Padded | Carrier::PaddedOwned => Lvl::Carried(c, pad(g, &s), l),
+        // padding is trimmed whatever the carrier
+        _ if g.chance(1, 4) => Lvl::Carried(c, pad(g, &s), l),
+        _ => Lvl::Carried(c, s, l),
+    }
+}
+
 fn gen_lvl(g: &mut Rng) -> Lvl {
+    if g.chance(1, 4) {
+        return gen_carried(g);
+    }
     match g.below(20) {
         0..=3 => Lvl::Missing,
         4..=7 => Lvl::Typed(g.usize(4)),
@@ -308,9 +404,45 @@ fn build_map(regs: &[(String, Rule)], default: &Option<Rule>, statics: bool) -> 
 
 /// Evaluate `f` on the event described by (module, lvl) through the generic and erased paths.
 fn eval_views<F: Filter + Send + Sync + 'static>(f: &F, module: &str, static_mdl: bool, lvl: &Lvl, extra_first: bool) -> Result<Vec<(&'static str, bool)>, String> {
+    /// The four views of one filter on one event.
+    fn answers<F: Filter + Send + Sync + 'static, P: Props>(f: &F, mdl: Path, props: P) -> Vec<(&'static str, bool)> {
+        let evt = Event::new(mdl, Template::literal("c17"), Empty, props);
+        let boxed: Box<dyn ErasedFilter + Send + Sync + '_> = Box::new(f);
+        vec![
+            ("generic", f.matches(&evt)),
+            ("ref-dyn", (f as &dyn ErasedFilter).matches(&evt)),
+            ("box-dyn", boxed.matches(&evt)),
+            ("erased-event", f.matches(evt.erase())),
+        ]
+    }
+
     catch(|| {
         let mdl = if static_mdl { real_path(module, true) } else { Path::new_ref_raw(module) };
+        // other properties around the level, before or after it
+        let before: &[(&str, i64)] = if extra_first { &[("a", 1), ("level", 3)] } else { &[] };
+        let after: [(&str, &str); 1] = [("lvl_", "error")];
+
+        // the level buffered in a ThreadLocalCtxt frame and read back as an ambient property
+        if let Lvl::Carried(c @ (Carrier::AmbientTyped | Carrier::AmbientText), text, l) = lvl {
+            let ctxt = tl_ctxt();
+            let typed = LEVELS[*l];
+            let mut frame = match c {
+                Carrier::AmbientTyped => ctxt.open_root((KEY_LVL, typed)),
+                _ => ctxt.open_root((KEY_LVL, text.as_str())),
+            };
+            ctxt.enter(&mut frame);
+            let out = catch(|| ctxt.with_current(|current| answers(f, mdl, before.and_props(current).and_props(after))));
+            ctxt.exit(&mut frame);
+            ctxt.close(frame);
+            return match out {
+                Ok(v) => v,
+                Err(m) => panic!("{}", m),
+            };
+        }
+
         let typed;
+        let sev;
+        let owned;
         let lvl_value: Option<Value> = match lvl {
             Lvl::Missing => None,
             Lvl::Typed(l) => {
@@ -320,19 +452,42 @@ fn eval_views<F: Filter + Send + Sync + 'static>(f: &F, module: &str, static_mdl
             Lvl::Text(s, _) | Lvl::Junk(s) => Some(Value::from(s.as_str())),
             Lvl::OwnedText(s, _) => Some(Value::from(s)),
             Lvl::Number(n) => Some(Value::from(*n)),
+            Lvl::Carried(c, s, l) => Some(match c {
+                Carrier::Padded => Value::from(s.as_str()),
+                Carrier::PaddedOwned => Value::from(s),
+                Carrier::FromDisplay => {
+                    sev = Sev(s.clone());
+                    Value::from_display(&sev)
+                }
+                Carrier::CaptureDisplay => {
+                    sev = Sev(s.clone());
+                    Value::capture_display(&sev)
+                }
+                Carrier::TypedOwned => {
+                    owned = Value::from_any(&LEVELS[*l]).to_owned();
+                    owned.by_ref()
+                }
+                Carrier::TypedShared => {
+                    owned = Value::from_any(&LEVELS[*l]).to_shared();
+                    owned.by_ref()
+                }
+                Carrier::TextOwned => {
+                    owned = Value::from(s.as_str()).to_owned();
+                    owned.by_ref()
+                }
+                Carrier::TextShared => {
+                    owned = Value::from(s.as_str()).to_shared();
+                    owned.by_ref()
+                }
+                Carrier::FromSerde => Value::from_serde(s),
+                Carrier::CaptureSerde => Value::capture_serde(s),
+                Carrier::FromSval => Value::from_sval(s),
+                Carrier::CaptureSval => Value::capture_sval(s),
+                Carrier::AmbientTyped | Carrier::AmbientText => unreachable!(),
+            }),
         };
-        // other properties around the level, before or after it
-        let before: &[(&str, i64)] = if extra_first { &[("a", 1), ("level", 3)] } else { &[] };
-        let after: [(&str, &str); 1] = [("lvl_", "error")];
         let lvl_prop = lvl_value.map(|v| (KEY_LVL, v));
-        let evt = Event::new(mdl, Template::literal("c17"), Empty, emit::Props::and_props(emit::Props::and_props(before, lvl_prop), after));
-        let boxed: Box<dyn ErasedFilter + Send + Sync + '_> = Box::new(f);
-        vec![
-            ("generic", f.matches(&evt)),
-            ("ref-dyn", (f as &dyn ErasedFilter).matches(&evt)),
-            ("box-dyn", boxed.matches(&evt)),
-            ("erased-event", f.matches(evt.erase())),
-        ]
+        answers(f, mdl, before.and_props(lvl_prop).and_props(after))
     })
 }
 
@@ -392,6 +547,7 @@ fn map_case(r: &mut Report, seed: u64, index: u64) {
         let static_mdl = g.bool();
         let extra_first = g.bool();
         r.eval();
+        r.observe(&format!("level-class:{}", lvl.class()), 1);
 
         // Path::is_child_of against the same ancestor predicate
         for (p, _) in &regs {
@@ -519,6 +675,72 @@ fn filter_case(r: &mut Report, seed: u64, index: u64) {
     }
 }
 
+fn pad_kind(p: &str) -> &'static str {
+    match p {
+        " " | "  " => "space",
+        "\t" => "tab",
+        "\n" | "\n\n" => "newline",
+        "\r\n" => "crlf",
+        _ => "mixed",
+    }
+}
+
+/// Metamorphic: a documented form `s` (denoting level `l`) padded with ASCII whitespace, or carried
+/// to the filter in any other way, is read exactly like `s`.
+fn padded_and_carried(r: &mut Report, s: &str, l: usize) {
+    use std::str::FromStr;
+    let want = Some(LEVELS[l]);
+    for p in PADS {
+        for (side, text) in [("leading", format!("{}{}", p, s)), ("trailing", format!("{}{}", s, p)), ("both", format!("{}{}{}", p, s, p))] {
+            r.observe("level-text:padded-forms", 1);
+            let got = catch(|| (Level::from_str(&text).ok(), Level::try_from_str(&text).ok(), Value::from(text.as_str()).cast::<Level>(), Value::from(&text).cast::<Level>()));
+            let case = || json!({"section": "text-forms", "text": text, "unpadded": s});
+            match got {
+                Err(m) => r.violation("C17:panic:level-padding", &format!("parsing {:?} panicked: {}", text, m), case()),
+                Ok((a, b, c, d)) => {
+                    for (entry, v) in [("from_str", a), ("try_from_str", b), ("value-cast", c), ("owned-string-cast", d)] {
+                        if v != want {
+                            r.violation(
+                                &format!("C17:level-padding:{}:{}:{}", entry, side, pad_kind(p)),
+                                &format!("{:?} reads as {:?} through {}, the same text without the padding ({:?}) is {}", text, v, entry, s, lname(l)),
+                                case(),
+                            );
+                        }
+                    }
+                }
+            }
+        }
+    }
+    // every carrier, bare and padded, at the accepting and at the rejecting minimum
+    for c in CARRIERS {
+        for text in [s.to_string(), format!(" {}\n", s)] {
+            let lvl = Lvl::Carried(c, text.clone(), l);
+            for min in [l, l + 1] {
+                if min > 3 {
+                    continue;
+                }
+                r.observe("level-text:carried-forms", 1);
+                let want = l >= min;
+                // an unleveled default on the other side of the minimum, so "read as no level" shows
+                let rule = Rule { min, unleveled: Some(if want { 0 } else { 3 }) };
+                let case = || json!({"section": "text-forms", "text": text, "carrier": format!("{:?}", c), "min": lname(min)});
+                match eval_views(&rule.real(), "a", false, &lvl, false) {
+                    Ok(v) => {
+                        if let Some((view, got)) = v.iter().find(|(_, a)| *a != want) {
+                            r.violation(
+                                &format!("C17:level-carrier:{}:{}", lvl.class(), if want { "rejects" } else { "accepts" }),
+                                &format!("level {:?} ({}) carried as {:?} against min {}: {} answered {}, the plain text / typed value gives {}", text, lname(l), c, lname(min), view, got, want),
+                                case(),
+                            );
+                        }
+                    }
+                    Err(m) => r.violation(&format!("C17:panic:level-carrier:{}", lvl.class()), &format!("level {:?} carried as {:?} panicked: {}", text, c, m), case()),
+                }
+            }
+        }
+    }
+}
+
 /// Every documented textual form must denote the level the table says (independent of the filters).
 fn text_forms(r: &mut Report) {
     for (w, l) in WORDS {
@@ -533,6 +755,7 @@ fn text_forms(r: &mut Report) {
                     s.push_str(tail);
                     r.eval();
                     r.observe("level-text:forms", 1);
+                    padded_and_carried(r, &s, l);
                     let lvl = Lvl::Text(s.clone(), l);
                     // min = the level itself accepts, min = the next level rejects
                     for min in 0..4usize {
@@ -555,7 +778,7 @@ fn text_forms(r: &mut Report) {
             }
         }
     }
-    r.exhaustive("every prefix of DEBUG/DBG/INFORMATION/WARNING/WRN/ERROR in upper, lower and mixed case, bare and with the trailers 1, 13, (4), against every minimum");
+    r.exhaustive("every prefix of DEBUG/DBG/INFORMATION/WARNING/WRN/ERROR in upper, lower and mixed case, bare and with the trailers 1, 13, (4), against every minimum; each of them padded with 7 ASCII whitespace strings on either / both sides through from_str, try_from_str and Value casts; each of them through 14 carriers (padded, owned String, foreign Display, OwnedValue, serde, sval, ThreadLocalCtxt-buffered) at the accepting and rejecting minimum");
 }
 
 /// The sibling / detour scenarios named in the property's review, against every level, through
